@@ -612,3 +612,37 @@ def rule_flavour_mask_operand(ctx):
                         ctx.holds("NTMASK", key, f.where(s.get("l")), "`%s`" % render(x)[:60], nontrivial=False)
     ctx.floor("NTMASK", 10, n, "(uses of the number-type flavour masks)")
     return n
+
+
+def rule_nt_record_class(ctx):
+    """NTCLASS (C06, C09): a number-type record (DFTAG_NT: version, type, width, class) describes stored data to every later reader.
+    Byte 1 holds only the low byte of the number type, so the byte-order flavour (DFNT_LITEND, DFNT_NATIVE) survives only through
+    byte 3, the format class.  A routine that writes such a record for data whose type comes from a variable (not a constant
+    like DFNT_UCHAR) must derive byte 3 from the flavour flags; a constant class byte makes a little-endian image or data set
+    read back byte-swapped after reopen."""
+    from .facts import int_name, is_int
+    prog = ctx.prog
+    n = 0
+    for f in prog.lib_funcs():
+        stores = {}
+        for _b, _i, _s, x in f.nodes(True):
+            if x[0] == "asg" and x[1] == "=":
+                t = strip(x[2])
+                if kind(t) == "idx" and kind(strip(t[1])) == "var" and strip(t[1])[1] == "ntstring" and is_int(t[2]):
+                    stores.setdefault(int_val(t[2]), []).append(x)
+        if 1 not in stores or 3 not in stores:
+            continue
+        variable_type = [x for x in stores[1] if not is_int(x[3])]
+        if not variable_type:
+            continue
+        n += 1
+        key = "NTCLASS:%s" % f.name
+        flavour = any((y[0] == "int" and int_name(y) in ("DFNT_LITEND", "DFNT_NATIVE")) or (y[0] == "call" and y[1] in ("DFKislitendNT", "DFKisnativeNT", "DFKgetPNSC")) for _b, _i, _s, y in f.nodes(True))
+        const3 = all(is_int(x[3]) for x in stores[3])
+        if const3 and not flavour:
+            ctx.violated("NTCLASS", key, f.where(stores[3][0][4]), "%s writes a number-type record for a type taken from `%s` with a constant class byte: the little-endian / native flavour of the "
+                         "data is not recorded and the data reads back byte-swapped after reopen" % (f.name, render(variable_type[0][3])[:40]))
+        else:
+            ctx.holds("NTCLASS", key, f.where(stores[3][0][4]), "the class byte follows the flavour flags of the number type", nontrivial=True)
+    ctx.floor("NTCLASS", 2, n, "(writers of number-type records for variable types)")
+    return n
